@@ -756,6 +756,10 @@ def rule_fact_objects_one_per_assert(em, rep, rid):
                                   'stored' % norm(kept[0]), f.loc(s_))
                 else:
                     rep.ok(rid, key, 'made where it is stored', f.loc(s_))
+            elif isinstance(s_, ast.Expr) and isinstance(s_.value, ast.Call) and any(
+                    isinstance(a_, ast.Call) and is_name(a_.func, ans.name) for a_ in s_.value.args):
+                n += 1
+                rep.ok(rid, '%s:%s' % (f.qname, norm(s_)[:50]), 'made where it is handed to the store', f.loc(s_))
             elif isinstance(s_, ast.Return) and s_.value is not None:
                 for x in ast.walk(s_.value):
                     if isinstance(x, ast.Attribute) and isinstance(x.value, ast.Name) and x.value.id in ('cls', ans.name) and x.attr.isupper():
